@@ -24,3 +24,16 @@ func RaceEnable()                    { runtime.RaceEnable() }
 // (e.g. a callback publishing what it was given) so that the detector sees it as synchronised.
 func HandOver(p unsafe.Pointer) { runtime.RaceReleaseMerge(p) }
 func TakeOver(p unsafe.Pointer) { runtime.RaceAcquire(p) }
+
+// The kernel writes the caller's buffer during a receive and reads it during a send: to the detector
+// these are accesses by the calling goroutine (the real syscall package annotates Read/Write the same way).
+func raceWriteRange(b []byte, n int) {
+	if n > 0 && n <= len(b) {
+		runtime.RaceWriteRange(unsafe.Pointer(&b[0]), n)
+	}
+}
+func raceReadRange(b []byte) {
+	if len(b) > 0 {
+		runtime.RaceReadRange(unsafe.Pointer(&b[0]), len(b))
+	}
+}
